@@ -216,6 +216,25 @@ func TestVF_C17(t *testing.T) {
 				hh[rng.Intn(len(hh))] ^= 0x10
 				m["chain_hash"] = hex.EncodeToString(hh)
 			})
+			// a hash of the right shape that belongs to other parameters, and malformed spellings of a hash:
+			// none of them matches the fields, so all must be refused (only an absent/empty hash means "no hash given")
+			other := c17InfoClone(info)
+			other.GenesisTime++
+			good := m["chain_hash"].(string)
+			for name, v := range map[string]string{
+				"chain_hash-of-other-info": other.HashString(),
+				"chain_hash-0x-prefixed":   "0x" + other.HashString(),
+				"chain_hash-non-hex":       "zz" + good[2:],
+				"chain_hash-non-hex-tail":  good[:len(good)-2] + "zz",
+				"chain_hash-truncated":     good[:len(good)-2],
+				"chain_hash-extended":      good + "00",
+				"chain_hash-other-spaced":  " " + other.HashString(),
+				"chain_hash-garbage":       "not a hash",
+				"chain_hash-odd-length":    good[:len(good)-1],
+			} {
+				v := v
+				tamper(name, func(m map[string]any) { m["chain_hash"] = v })
+			}
 			tamper("period", func(m map[string]any) { m["period"] = uint64(info.Period/time.Second) + 1 })
 			tamper("genesis_time", func(m map[string]any) { m["genesis_time"] = info.GenesisTime + 1 })
 			tamper("genesis_seed", func(m map[string]any) {
